@@ -78,37 +78,38 @@ type Ctx struct {
 	Backend solver.Backend
 	Par     int
 
-	mu               sync.Mutex
-	T0               time.Time
-	Samples          []ObSample
-	Obligations      int
-	Discharged       int
-	Folded           int
-	States           int64
-	Transitions      int64
-	Validated        int
-	ValidationRuns   []string
-	SolverSeconds    float64
-	ExecSeconds      float64
-	Funcs            map[string]int
-	Stubs            map[string]int
-	BoundsText       []string
-	Assumptions      []string
-	Violations       []Finding
-	AbstractFindings []Finding
-	KnownHits        []string
-	Inconclusive     []string
-	Mismatches       []string
-	Notes            []string
-	Jobs             int
-	Extra            map[string]interface{}
-	CrossChecked     int // query files given to all three solvers (thorough tier)
-	CrossTimeouts    int
-	ReplayOnly       *ReplayFile // replay mode: only run this saved input natively
-	ReplayPath       string
-	ReplayResult     *NativeResult
-	progs            map[string]*loaded
-	bins             map[string]string
+	mu                 sync.Mutex
+	T0                 time.Time
+	Samples            []ObSample
+	Obligations        int
+	Discharged         int
+	Folded             int
+	States             int64
+	Transitions        int64
+	Validated          int
+	ValidationRuns     []string
+	SolverSeconds      float64
+	ExecSeconds        float64
+	Funcs              map[string]int
+	Stubs              map[string]int
+	BoundsText         []string
+	Assumptions        []string
+	Violations         []Finding
+	AbstractFindings   []Finding
+	KnownHits          []string
+	Inconclusive       []string
+	Mismatches         []string
+	Notes              []string
+	Jobs               int
+	Extra              map[string]interface{}
+	CrossChecked       int // query files given to all three solvers (thorough tier)
+	CrossTimeouts      int
+	ReplayOnly         *ReplayFile // replay mode: only run this saved input natively
+	ReplayPath         string
+	ReplayResult       *NativeResult
+	ReplayOnlyFailures bool
+	progs              map[string]*loaded
+	bins               map[string]string
 }
 
 type loaded struct {
@@ -189,6 +190,13 @@ func (c *Ctx) RunJobs(jobs []Job, workers int) {
 		for _, j := range jobs {
 			if j.Name == c.ReplayOnly.Job {
 				nr, err := c.nativeRun(j, c.ReplayPath)
+				c.ReplayOnlyFailures = j.ConfirmOnlyFailures
+				if err != nil && j.ConfirmOnlyFailures && nr != nil {
+					// the subject ended the process itself (gocc's os.Exit): it rejected its input
+					fmt.Println("the code under test ended the process (os.Exit): no assertion of the harness failed")
+					c.ReplayResult = &NativeResult{Raw: nr.Raw}
+					continue
+				}
 				if err != nil {
 					fmt.Println("native replay failed:", err)
 					return
